@@ -21,36 +21,51 @@ func TestReplay(t *testing.T) {
 	if path == "" {
 		t.Skip("no VX_MODEL")
 	}
-	if err := vx.Load(path); err != nil {
-		t.Fatal(err)
+	// VX_STRESS=n: repeat the (concurrent) harness up to n times with real goroutines until it fails;
+	// used to confirm schedule-dependent counterexamples that cannot be steered through gates.
+	iters := 1
+	if s := os.Getenv("VX_STRESS"); s != "" {
+		fmt.Sscan(s, &iters)
 	}
-	fn, ok := Harnesses[vx.FnName()]
-	if !ok {
-		t.Fatalf("unknown harness %q", vx.FnName())
-	}
-	done := make(chan struct{})
-	go func() {
-		defer close(done)
-		defer func() {
-			if r := recover(); r != nil {
-				if vx.IsAssumeFalse(r) {
-					return
-				}
-				fmt.Printf("VX-PANIC %s @ %s%s\n", panicKind(fmt.Sprint(r)), panicSite(), vx.TagSuffix())
-				fmt.Printf("VX-PANIC-DETAIL %v\n", r)
-			}
-		}()
-		fn()
-		fmt.Println("VX-DONE")
-	}()
 	wd := 20 * time.Second
-	select {
-	case <-done:
-	case <-time.After(wd):
-		fmt.Println("VX-DEADLOCK")
-		buf := make([]byte, 1<<16)
-		n := runtime.Stack(buf, true)
-		fmt.Printf("VX-DEADLOCK-DETAIL\n%s\n", buf[:n])
+	if iters > 1 {
+		wd = 2 * time.Second
+	}
+	for it := 0; it < iters; it++ {
+		if err := vx.Load(path); err != nil {
+			t.Fatal(err)
+		}
+		fn, ok := Harnesses[vx.FnName()]
+		if !ok {
+			t.Fatalf("unknown harness %q", vx.FnName())
+		}
+		done := make(chan struct{})
+		go func() {
+			defer close(done)
+			defer func() {
+				if r := recover(); r != nil {
+					if vx.IsAssumeFalse(r) {
+						return
+					}
+					fmt.Printf("VX-PANIC %s @ %s%s\n", panicKind(fmt.Sprint(r)), panicSite(), vx.TagSuffix())
+					fmt.Printf("VX-PANIC-DETAIL %v\n", r)
+				}
+			}()
+			fn()
+			fmt.Println("VX-DONE")
+		}()
+		select {
+		case <-done:
+		case <-time.After(wd):
+			fmt.Println("VX-DEADLOCK")
+			buf := make([]byte, 1<<16)
+			n := runtime.Stack(buf, true)
+			fmt.Printf("VX-DEADLOCK-DETAIL iteration %d\n%s\n", it, buf[:n])
+			return
+		}
+		if vx.Failed() {
+			return
+		}
 	}
 }
 
